@@ -226,6 +226,18 @@ func c11Trailing(env *core.Env, src string, co []fhirpath.CompileOption) {
 			env.Violatef("C11/trailing-text-accepted/"+strings.TrimSpace(t), "Compile accepts %q: the source has unparsed trailing text after %q", src+t, src)
 		}
 	}
+	// characters that are no token of the language before the first token
+	for _, t := range []string{"#", "^ ", "\\ ", "!", "?", ";", " # ", "/* c */ ^", "\"", "$ ", "# # ", "\u00a7", "\n#"} {
+		env.Cover("leading-garbage")
+		ex, cr := fx.Compile(env, t+src, co...)
+		if cr.IsPanic() {
+			env.Violatef(fx.PanicSig("C11", cr), "Compile(%q) => %s", t+src, cr.Short())
+			continue
+		}
+		if ex != nil {
+			env.Violatef("C11/leading-text-accepted/"+strings.TrimSpace(t), "Compile accepts %q: the source starts with characters that are no token, before %q", t+src, src)
+		}
+	}
 }
 
 func c11Tree(env *core.Env, seed uint64, cat string, depth int) {
